@@ -225,6 +225,7 @@ package gochannel
 //@   ghost waits GoChannel.subscribersLock
 //@   ghost consumes-wg g.subscribersWg as s
 //@   gives @wgdone:g.subscribersWg: s.closed && closed(s.outputChannel) && closed(s.closing) [returns-its-token-only-after-its-subscription-was-closed]
+//@   assert @wgdone:g.subscribersWg: gf(gone, s) [reports-back-only-after-it-unregistered-its-subscription-Close-returns-when-nothing-is-left-to-do]
 //@   ghost sole-writer s.closed
 //@   ghost owns s.closing
 //@   ghost set gone(s) = true @call:(*GoChannel).removeSubscriber
